@@ -124,6 +124,19 @@ impl RefIndex {
                 });
             }
             GraphNode::Table(table) => {
+                // links inside the cells belong to the table block
+                for line_id in table
+                    .header()
+                    .iter()
+                    .chain(table.rows().iter().flatten())
+                {
+                    for key in graph.get_line(*line_id).ref_keys() {
+                        self.inline_references
+                            .entry(key.clone())
+                            .or_insert_with(HashSet::new)
+                            .insert(table.id());
+                    }
+                }
                 table.next_id().map(|child_id| {
                     self.index_node(graph, child_id);
                 });
